@@ -93,6 +93,16 @@ CHECKS = {
               "Tie: extracted m_simplify_pv / m_complexify_pv vs the crate on its own dumps for random markers x bound pairs (incl. pre/post/dev bounds)."),
         design_ref='DESIGN.md section 7 / C12',
         technique='Coq proof (window restriction/clipping lemmas on partitions) + step-wise differential correspondence + law oracle'),
+    'C16': dict(
+        text=("Machine-checked proof (Coq): the model of Ord for MarkerTree (structural comparison through kind(): kind, key, value, edges "
+              "lexicographically with the version-ranges bound order, children recursively) is a decidable strict total order on diagrams whose "
+              "Equal case is exactly identity of diagrams (cmp = Equal <=> ==), antisymmetric and transitive; it is a function of the unfolded diagrams "
+              "only, hence reproducible across runs; lexicographic products of such orders (Requirement's derived Ord) are again total orders "
+              "consistent with equality. Tie: extracted m_cmp vs MarkerTree::cmp on pairs of dumps; ==, cmp, hash coherence, antisymmetry and "
+              "transitivity on the crate; same sort order in a second process with a different history; Requirement / VerbatimUrl pairs "
+              "(url ordering itself is the url crate's and is assumed coherent)."),
+        design_ref='DESIGN.md section 7 / C16',
+        technique='Coq proof (total order by induction on diagrams via head comparison) + differential correspondence + cross-process sort'),
 }
 
 PENDING = {}
